@@ -100,7 +100,9 @@ SiteDiff(p, rec, f, s, c, w) ==
     \* the position selects precisely the callee identifier (columns counted in characters, or consistently in bytes)
     (IF c.line = s.line /\ (<<c.c0, c.c1>> = <<s.c0, s.c1>> \/ <<c.c0, c.c1>> = <<s.b0, s.b1>>) THEN {}
      ELSE {Item(p, "wrong-position", w, {})}) \cup
-    (IF s.inLambda THEN {}                                                         \* Free: receivers inside lambda bodies
+    \* Free: receivers inside lambda bodies - except the explicitly typed parameter of the lambda itself, `(T it) -> it.m()`,
+    \* which is a declared parameter of a plain type like any other (the renderer reports its type as the innermost local)
+    (IF s.inLambda /\ s.lambdaT = "" THEN {}
      ELSE IF s.recvKind = "none"
           THEN (IF c.node = f.unit.name /\ c.pkg = f.pkg THEN {} ELSE {Item(p, "wrong-receiver", w, {})})
      ELSE IF s.recvKind = "var" /\ RecvType(s) # "" /\ Resolve(rec, f, RecvType(s)) # ""
